@@ -474,7 +474,8 @@ class Rel:
 def c39_mapping(kind, fwd, fwd_orphan, back, second=None, second_orphan=False):
     """kind in Z1 (A -bs-> B -cs-> C), Z2 (self-referential N.kids / N.par),
     Z3 (many-to-many L.rs / R.ls), Z5 (one-to-one A.b / B.a), Z6 (Z1 without any
-    backref: unidirectional one-to-many chain).
+    backref: unidirectional one-to-many chain), Z7 (one-to-one A.b with a collection
+    B.cs below it), Z8 (many-to-one A.b, single_parent when delete-orphan, B.cs below).
     fwd / back / second are iterables of cascade names.  Returns (registry, classes, rels)."""
     import sqlalchemy as sa
     from sqlalchemy import orm
@@ -524,6 +525,25 @@ def c39_mapping(kind, fwd, fwd_orphan, back, second=None, second_orphan=False):
         mk("B", a_id=sa.Column(sa.ForeignKey("a.id")))
         rel("A", "b", "B", "o2o", fwd, fwd_orphan, "a", uselist=False)
         rel("B", "a", "A", "m2o", back, False, "b")
+    elif kind == "Z7":
+        mk("A")
+        mk("B", a_id=sa.Column(sa.ForeignKey("a.id")))
+        mk("C", b_id=sa.Column(sa.ForeignKey("b.id")))
+        second = fwd if second is None else second
+        rel("A", "b", "B", "o2o", fwd, fwd_orphan, "a", uselist=False)
+        rel("B", "a", "A", "m2o", back, False, "b")
+        rel("B", "cs", "C", "o2m", second, second_orphan, "b")
+        rel("C", "b", "B", "m2o", back, False, "cs")
+    elif kind == "Z8":
+        mk("B")
+        mk("A", b_id=sa.Column(sa.ForeignKey("b.id")))
+        mk("C", b_id=sa.Column(sa.ForeignKey("b.id")))
+        second = fwd if second is None else second
+        # many-to-one holder side; delete-orphan on it requires single_parent
+        rel("A", "b", "B", "m2o", fwd, fwd_orphan, "as_", single_parent=bool(fwd_orphan))
+        rel("B", "as_", "A", "o2m", back, False, "b")
+        rel("B", "cs", "C", "o2m", second, second_orphan, "b")
+        rel("C", "b", "B", "m2o", back, False, "cs")
     elif kind == "Z6":
         mk("A")
         mk("B", a_id=sa.Column(sa.ForeignKey("a.id")))
